@@ -20,6 +20,14 @@ class Unsupported(Exception):
     pass
 
 
+# library functions that take forwarding references but only copy / move from
+# their arguments (assumed: Boost.Asio completion-token adapters and executors)
+NON_MUTATING_LIB = {'prepend', 'append', 'consign', 'bind_executor', 'bind_allocator', 'bind_cancellation_slot',
+                    'bind_immediate_executor', 'post', 'dispatch', 'defer', 'get_associated_executor',
+                    'get_associated_allocator', 'get_associated_cancellation_slot', 'make_pair', 'make_tuple',
+                    'tie', 'buffer', 'require', 'prefer'}
+
+
 INT_TYPES = {
     'bool': '_Bool', 'char': 'char', 'signed char': 'signed char', 'unsigned char': 'unsigned char',
     'short': 'short', 'unsigned short': 'unsigned short', 'int': 'int', 'unsigned int': 'unsigned int',
@@ -1474,12 +1482,16 @@ class Emitter:
                 continue
             ti = self.T(qt(x))
             byref_out = False
-            if ptys is not None and i < len(ptys):
+            if (rd or {}).get('name') in NON_MUTATING_LIB:
+                pass
+            elif ptys is not None and i < len(ptys):
                 p = ptys[i].strip()
                 base = p[:-1].strip()
                 if p.endswith('&') and not p.endswith('&&') and not (base.startswith('const ') or base.endswith(' const')):
                     byref_out = x.get('valueCategory') == 'lvalue'
-            if ptys is None and x.get('valueCategory') == 'lvalue' and x.get('kind') in ('DeclRefExpr', 'MemberExpr') \
+            if (rd or {}).get('name') in NON_MUTATING_LIB:
+                pass
+            elif ptys is None and x.get('valueCategory') == 'lvalue' and x.get('kind') in ('DeclRefExpr', 'MemberExpr') \
                     and not qt_sugar(x).strip().startswith('const ') and ti.kind in ('int', 'it', 'vit', 'ptr', 'ec', 'dur'):
                 # no parameter types known (member of a library class): a non-const
                 # lvalue argument may be bound to a non-const reference
@@ -1492,7 +1504,11 @@ class Emitter:
                 while y.get('kind') in ('ImplicitCastExpr', 'ParenExpr'):
                     y = y['inner'][0]
                 if y.get('kind') == 'DeclRefExpr':
-                    a.append('0 /*callable*/')
+                    # a named function passed to an opaque callee: a constant that identifies it
+                    nm = 'FNID_' + sanitize(y['referencedDecl'].get('name') or 'fn')
+                    if nm not in self.lib_enums:
+                        self.lib_enums.append(nm)
+                    a.append(nm)
                 else:
                     # a completion token built by library calls (asio::prepend(std::move(*this), ...)):
                     # evaluated for its effects on the ghost counters
